@@ -78,6 +78,9 @@ pub struct Matcher {
     matches: Vec<MatchResult>,
     /// Section 104 pools (remaining after same-day and B&B)
     pools: HashMap<String, Section104Holding>,
+    /// Shares actually held per ticker (acquired minus disposed, rescaled by splits),
+    /// independent of how disposals were identified
+    positions: HashMap<String, Decimal>,
 }
 
 impl Matcher {
@@ -87,6 +90,7 @@ impl Matcher {
             ledgers: HashMap::new(),
             matches: Vec::new(),
             pools: HashMap::new(),
+            positions: HashMap::new(),
         }
     }
 
@@ -133,6 +137,7 @@ impl Matcher {
                         )));
                     }
                     let cost_offset = cost_offsets.get(idx).copied().unwrap_or(Decimal::ZERO);
+                    *self.positions.entry(tx.ticker.clone()).or_default() += *amount;
                     let ledger = self.ledgers.entry(tx.ticker.clone()).or_default();
                     ledger.add_acquisition(
                         idx,
@@ -407,23 +412,21 @@ impl Matcher {
         // Pre-cascade holding check: you must hold shares to dispose of them.
         // B&B determines cost basis for a valid disposal — it does not enable
         // disposing of shares the taxpayer does not hold (CG51590 Example 1).
-        let ledger_held = self
-            .ledgers
+        // A disposal matched to a later acquisition (B&B) leaves the pool untouched,
+        // so the pool alone overstates what is held; use the running net position.
+        let held = self
+            .positions
             .get(&tx.ticker)
-            .map(|l| l.remaining_for_date(tx.date))
+            .copied()
             .unwrap_or(Decimal::ZERO);
-        let pool_held = self
-            .pools
-            .get(&tx.ticker)
-            .map(|p| p.quantity)
-            .unwrap_or(Decimal::ZERO);
-        let total_held = ledger_held + pool_held;
-        if *amount > total_held {
+        if *amount > held {
             return Err(CgtError::InvalidTransaction(format!(
-                "SELL {} on {}: disposal of {} shares exceeds holding of {} \
-                 (same-day ledger: {}, S104 pool: {})",
-                tx.ticker, tx.date, amount, total_held, ledger_held, pool_held
+                "SELL {} on {}: disposal of {} shares exceeds holding of {}",
+                tx.ticker, tx.date, amount, held
             )));
+        }
+        if let Some(position) = self.positions.get_mut(&tx.ticker) {
+            *position -= *amount;
         }
 
         let mut remaining = *amount;
@@ -512,12 +515,20 @@ impl Matcher {
                 if let Some(pool) = self.pools.get_mut(&tx.ticker) {
                     pool.quantity *= *ratio;
                 }
+                if let Some(position) = self.positions.get_mut(&tx.ticker) {
+                    *position *= *ratio;
+                }
             }
             Operation::Unsplit { ratio } => {
                 if let Some(pool) = self.pools.get_mut(&tx.ticker)
                     && *ratio != Decimal::ZERO
                 {
                     pool.quantity /= *ratio;
+                }
+                if let Some(position) = self.positions.get_mut(&tx.ticker)
+                    && *ratio != Decimal::ZERO
+                {
+                    *position /= *ratio;
                 }
             }
             Operation::Buy { .. }
